@@ -47,7 +47,12 @@ class Codec:
                 for tag in group.tags:
                     self._addTag(body, tag, group)
         else:
-            body.append("%s=%s" % (t, msg[t]))
+            value = msg[t]
+            if self.SOH in value:
+                raise EncodingError(
+                    f"tag={t} value contains the field separator (SOH): {value!r}"
+                )
+            body.append("%s=%s" % (t, value))
 
     def encode(
         self,
@@ -72,6 +77,10 @@ class Codec:
         body = []
 
         msg_type = msg.msg_type
+        if self.SOH in str(getattr(msg_type, "value", msg_type)):
+            raise EncodingError(
+                f"MsgType contains the field separator (SOH): {msg_type!r}"
+            )
 
         body.append("%s=%s" % (FTag.SenderCompID, session.sender_comp_id))
         body.append("%s=%s" % (FTag.TargetCompID, session.target_comp_id))
